@@ -59,7 +59,7 @@ func genSideShow(c *vcore.Ctx, allowSignals bool) []string {
 			s = append(s, "fork", "1", "exit", fmt.Sprint(1+src.Int(200, "ccode")))
 		case "crash":
 			if allowSignals {
-				sg := []int{11, 6, 15, 9, 31, 25, 24}[src.Int(7, "csig")]
+				sg := []int{11, 6, 15, 9, 7, 25, 24}[src.Int(7, "csig")] // SIGSYS in a secondary process is C03 territory (filter kill)
 				if sg == 24 || sg == 25 {
 					sideLimitSignal = true
 				}
